@@ -11,7 +11,7 @@ from ..symx import Skip, explore
 
 PID = "C17"
 LEVEL = "translation_validation"
-RAW3 = ("calc d", "proj a", "proj -b", "sel a>k", "dedup", "sort total", "sort a", "slice s:e")
+RAW3 = ("calc d", "proj a", "proj -b", "sel a>k", "dedup", "sort total", "sort a", "slice s:e", "slice s:")
 
 
 def shapes(tier, seed):
